@@ -22,7 +22,7 @@ func c09Async(r *ev.Reporter) []string {
 	}
 	bound, capExec := 1, int64(0)
 	if !r.Quick() {
-		bound, capExec = 2, 400000
+		bound, capExec = 2, 150000
 	}
 	f := newC09Fix(4, crypto.NameEDDSA)
 	orders := [][]c09Msg{
